@@ -1043,7 +1043,7 @@ Example demo_result :
                      length (filter (fun o => match o_dest o with Some (Pooled _) => true | _ => false end) obs),
                      length (filter (fun o => match o_dest o with Some (RawMem _) => true | _ => false end) obs))
   | _ => (1, 0, 0, false, 0, 0)
-  end = (0, 8, 8, true, 8, 2).
+  end = (0, 7, 7, true, 8, 2).
 Proof. vm_compute. reflexivity. Qed.
 
 (* H is not vacuous in the other direction either: an idle pool IS re-parameterised for another node type *)
@@ -1053,3 +1053,30 @@ Example reparam_under_H :
   match run init ops with Ok (st, obs) => (outstanding st, map o_reparam obs) | _ => (1, []) end
     = (0, [false; false; false; false; true; false; false; false]).
 Proof. vm_compute. split; reflexivity. Qed.
+
+(* ------------------------------------------------------------------ the pool block fits the value type *)
+(* about the GENERATED CorrectBlockSize / Ceil: the block the pool hands out for a value type is at least
+   sizeof(value_type), a multiple of the alignment, at least two alignments (room for the free-list link)
+   and wastes less than two alignments *)
+Local Open Scope Z_scope.
+Lemma pool_block_fits vt : vt_ok vt = true ->
+  snd (get_params vt) = valign vt /\ vsize vt <= fst (get_params vt) /\ 2 * valign vt <= fst (get_params vt) /\
+  fst (get_params vt) mod valign vt = 0 /\ fst (get_params vt) < vsize vt + 2 * valign vt.
+Proof.
+  unfold vt_ok, get_params. destruct vt as [s a]; cbn [vsize valign]. rewrite !andb_true_iff, !Z.ltb_lt, Z.leb_le.
+  intros [[[Hs1 Hs2] Ha1] Ha2]. unfold Gen_MemPoolConst.CorrectBlockSize, default_block_count.
+  change (32 =? 1) with false. cbv iota.
+  change (2 ^ 32) with 4294967296 in Hs2.
+  assert (W : forall x, 0 <= x < 18446744073709551616 -> wrapU 64 x = x) by (intros; apply wrapU_small; assumption).
+  destruct (Z.leb_spec s a); cbn [fst snd].
+  - rewrite W by lia. split; [reflexivity|]. split; [lia|]. split; [lia|].
+    split; [|lia]. apply Z.mod_mul. lia.
+  - unfold Gen_UIntMath.Ceil. rewrite (W (s + a)) by lia. rewrite (W (s + a - 1)) by lia.
+    pose proof (Z.div_mod (s + a - 1) a ltac:(lia)) as D. pose proof (Z.mod_pos_bound (s + a - 1) a ltac:(lia)) as B.
+    rewrite (Z.mul_comm ((s + a - 1) / a) a).
+    remember ((s + a - 1) / a) as q. remember ((s + a - 1) mod a) as r.
+    assert (2 <= q) by nia.
+    assert (2 * a <= a * q) by nia.
+    rewrite W by lia.
+    split; [reflexivity|]. split; [lia|]. split; [lia|]. split; [rewrite Z.mul_comm; apply Z.mod_mul; lia | lia].
+Qed.
